@@ -357,6 +357,12 @@ def case_st(draw, tier="quick", methods=METHODS):
         if method in DIRECT or method == "broyden1":
             method = draw(st.sampled_from(["cg", "bicgstab", "bicgstab", "gmres"]))
             opts = {}
+    bscale = draw(st.one_of(st.none(), st.none(), st.lists(st.integers(-4, 4), min_size=4, max_size=4)))
+    if method == "broyden1":
+        # its default budget is 100*(unknowns+1) iterations with a line search each: keep the systems small, and the absolute
+        # f_tol makes badly scaled right-hand sides a different question (see in_silent_class)
+        n = min(n, 8)
+        bscale = None
     return {
         "n": n, "ncols": ncols, "batch": batch,
         "bA": bA, "bB": bB, "bE": bE, "bM": bM,
@@ -366,7 +372,7 @@ def case_st(draw, tier="quick", methods=METHODS):
         "hflag": draw(st.sampled_from([True, True, False])),
         "method": method, "emode": emode, "ecomplex": draw(st.booleans()), "eneg": draw(st.sampled_from([True, True, False])),
         "opts": opts, "zero": draw(st.sampled_from(["none", "none", "none", "none", "some", "all"])),
-        "bscale": draw(st.one_of(st.none(), st.none(), st.lists(st.integers(-4, 4), min_size=4, max_size=4))),
+        "bscale": bscale,
         "easycol": easy, "mutate": draw(st.sampled_from([None, None, None, "A", "M", "AM"])),
         "bglobal": bglobal,
         "seed": draw(st.integers(0, 2 ** 31 - 1)),
